@@ -73,6 +73,9 @@ Proof.
   - unfold bltb in H1. rewrite bcmp_antisym, Eab in H1. discriminate.
 Qed.
 
+Lemma frev_rev {A} (l : list A) : frev l = rev l.
+Proof. unfold frev. symmetry. apply rev_alt. Qed.
+
 (* ------------------------------------------------------------------ insertion sort *)
 Section SortProofs.
   Context {A : Type} (less : A -> A -> bool) (R : A -> A -> Prop).
@@ -92,7 +95,7 @@ Section SortProofs.
 
   Lemma go_isort_perm l : Permutation (go_isort less l) l.
   Proof.
-    unfold go_isort, isort_rev. rewrite <- Permutation_rev.
+    unfold go_isort, isort_rev. rewrite frev_rev, <- Permutation_rev.
     rewrite isort_rev_perm_gen. rewrite app_nil_r. reflexivity.
   Qed.
 
@@ -148,7 +151,7 @@ Section SortProofs.
 
   Lemma go_isort_sorted l : StronglySorted R (go_isort less l).
   Proof.
-    unfold go_isort, isort_rev. apply sorted_rev. apply isort_rev_sorted_gen. constructor.
+    unfold go_isort, isort_rev. rewrite frev_rev. apply sorted_rev. apply isort_rev_sorted_gen. constructor.
   Qed.
 End SortProofs.
 
@@ -218,7 +221,7 @@ Lemma go_isort_map {A B} (f : A -> B) (less : A -> A -> bool) (less' : B -> B ->
   (forall a b, less' (f a) (f b) = less a b) ->
   map f (go_isort less l) = go_isort less' (map f l).
 Proof.
-  intro H. unfold go_isort, isort_rev. rewrite map_rev. f_equal.
+  intro H. unfold go_isort, isort_rev. rewrite !frev_rev, map_rev. f_equal.
   assert (G : forall acc, map f (fold_left (fun rp x => ins_rev less x rp) l acc)
                           = fold_left (fun rp x => ins_rev less' x rp) (map f l) (map f acc)).
   { induction l as [|x l IH]; intro acc; simpl; [reflexivity|].
